@@ -29,6 +29,43 @@ CHECKS = {
          "harness sources release their observer handles in the epilogue",
          PBT + " with reference-counted liveness tokens"),
 }
+CONC = " under schedules generated as data (sparse preemption overrides / dense random walks over the scheduling points of every lock, condvar, spawn and sleep operation)"
+CHECKS.update({
+ "C07": ("arxv-conc", "every sequential generator of C01-C06/C10 (with and without re-entrant reactions) and the concurrent scenario generators of C05/C09/C11/C12/C19 are run with the only oracle 'the runtime reports no deadlock (incl. self-deadlock), no step-budget / fuel exhaustion, every call returned'.",
+         "trusted: arx_rt lock model (writer-preferring futex RwLock, recursive read deadlocks when a writer is queued); bounded schedules",
+         PBT + " with the controlled runtime's deadlock / livelock verdict as oracle" + CONC),
+ "C08": ("arxv-conc", "generated post/abort call sequences from 1..3 poster threads (tasks that yield, post, abort)" + CONC + "; stamped-history oracle: at-most-once, one at a time on one non-poster thread, FIFO up to concurrency, nothing after abort, no lost wake-up, clean stop, default scheduler synchronous.",
+         "trusted: arx_rt condvar model (no spurious wake-ups injected; FIFO/LIFO notify choice generated)",
+         PBT + " with a stamped-history oracle" + CONC),
+ "C09": ("arxv-conc", "generated scripts through [ops] observe_on|subscribe_on (also stacked) [ops] with an emitter thread or a synchronous source and an optional unsubscribing thread" + CONC + "; received must equal the reference trace without scheduler operators (prefix if unsubscribed), one worker thread, no overlapping callbacks.",
+         "trusted: reference interpreter for the scheduler-free pipeline",
+         PBT + " with differential + history oracles" + CONC),
+ "C10": ("arxv-seq", "generated call histories over subscribe/unsubscribe/next/error/complete with 3 observers on the four subject types; per-observer traces and the registered-observer count after every call must equal the reference state machine.",
+         "trusted: reference state machine (model.rs MHot); observer count accessor appended to the generated copy",
+         PBT + " (stateful: generated call histories) with a reference state machine"),
+ "C11": ("arxv-conc", "2..3 inputs with unique item scripts pushed by harness threads or played on scheduler threads into merge / zip / amb / concat / flat_map, optional take" + CONC + "; conservation, per-input order, pairing, exactly one complete and last, take(n) <= n.",
+         "schedules explored by generation, not exhaustively",
+         PBT + " with conservation / ordering invariants" + CONC),
+ "C12": ("arxv-conc", "producer threads, a late subscriber thread and a leaving thread on Subject / BehaviorSubject / ReplaySubject" + CONC + "; exactly-once, gap-free per-producer runs, replay completeness in push order, behavior: value then all later values. Two open known findings (late Behavior/Replay subscriber racing a push) are reported and excluded by construction.",
+         "push order = order of the producers' call/return stamps",
+         PBT + " with stamped-history invariants" + CONC),
+ "C13": ("arxv-seq", "generated call histories over subscribe/unsubscribe/connect/disconnect/source events on publish / ref_count / replay over hot, cold-synchronous and per-subscription sources; per-subscriber traces, source subscription counts and final liveness must equal the reference state machine.",
+         "trusted: reference state machine (model.rs MConn); reconnection to a finished source not generated (unspecified)",
+         PBT + " (stateful: generated call histories) with a reference state machine"),
+ "C15": ("arxv-conc", "generated pipelines over interval / timer / observe_on / subscribe_on / delay / debounce / timeout ended by terminal, unsubscribe or early completion at generated virtual instants" + CONC + "; at quiescence every library-spawned thread must have finished within the pipeline's timer periods after the last subscription ended.",
+         "virtual clock (computation takes no time); bound = sum of the periods in the pipeline",
+         PBT + " on a virtual clock with a thread-table oracle" + CONC),
+ "C16": ("arxv-conc", "period x gap-script grid for interval, timer, delay, timeout, sample, debounce, time_interval" + CONC + "; (virtual time, event) pairs must equal the timing definition.",
+         "virtual clock owned by the runtime (thread::sleep / Instant redirected)",
+         PBT + " on a virtual clock with an exact timing oracle" + CONC),
+ "C18": ("arxv-conc", "scripts pushed by an emitter thread (directly or through observe_on) or synchronously, awaited by a condvar block_on" + CONC + "; the future resolves, never before the terminal, with exactly the items / the error.",
+         "the waker is std::task::Wake on an Arc<flag+condvar> built on the facade",
+         PBT + " with lost-wake-up detection by the controlled runtime" + CONC),
+ "C19": ("arxv-conc", "2..3 threads over merge / zip / amb / flat_map / take_until / skip_until / sample / the four subjects with one thread signalling a terminal while another emits" + CONC + "; at most one terminal, nothing for an emission that started after the terminal callback returned.",
+         "a callback already in flight when the terminal callback returns is tolerated, as the statement allows",
+         PBT + " with a stamped-history oracle" + CONC),
+})
+CHECKS["C05"] = ("arxv-conc",) + CHECKS["C05"][1:]
 import os
 extra = os.path.join(os.path.dirname(__file__), 'manifest_extra.py')
 NA = {}
